@@ -21,6 +21,10 @@ CLAIMED.update({
  'C06': dict(text='The real WellConnections::loadCOMPDAT is run symbolically through its public signature (hand-built DeckRecord, real ScheduleGrid/CompletedCells cell) with symbolic cell geometry, permeabilities, NTG, skin, diameter, CF, Kh, r0 and symbolic given/defaulted flags; z3 proves on every path that explicit values are stored unchanged, defaulted Kh/r0 equal the independently written Peaceman expressions (direction permutation, NTG on the vertical extent) and CF (ln(r0/rw)+S) = 2 pi Kh.',
              note='doubles as reals, libm uninterpreted with defining axioms; rw < r0 assumed; over-determined input (CF, Kh and r0 all entered) only checked for pass-through; relation to 1e-8 where r0 is back-computed (8-digit pi in inverse_peaceman); COMPDAT parsing, WPIMULT/WELOPEN handlers and multi-record histories outside', design='4/C06'),
 })
+CLAIMED.update({
+ 'C14': dict(text='Tabulated1DFunction (sorting, segment search incl. bisection, eval, evalDerivative, extrapolation) and DeadOilPvt/DryGasPvt built from hand-set tables are executed with symbolic nodes (3-5) and evaluation point; z3 proves node honouring, bracketing between nodes (also for viscosity = (1/B)/(1/(B mu))), derivative = chord slope for double and Evaluation arguments, and the extrapolation rules.',
+             note='doubles as reals; initFromState (table extension, unit conversion), live-oil/wet-gas 2D tables, saturation-pressure Newton iteration and PVTW/PVCDO closed forms outside', design='4/C14'),
+})
 NA = {
 }
 ALL = ['C%02d' % i for i in range(1, 21)]
